@@ -411,6 +411,7 @@ TBlocked ==
         /\ verdict' = IF Amb THEN LeafNeg(Line.leaf)
                        ELSE First(<<IF Blocked(s, req) THEN "ok" ELSE "NC:request-waits-that-the-model-completes",
                                     IF Visible(s1) = Visible(s) /\ DOMAIN s1.conf = DOMAIN s.conf
+                                       /\ ModelOwnerProj(s1) = ModelOwnerProj(s)
                                        /\ (Line.leaf # obs.leaf \/ HookVisible(Line.hook) # HookVisible(obs.hook)
                                             \/ OwnerProj(Line.hook) # OwnerProj(obs.hook))
                                     THEN "C19:request-waiting-for-an-in-flight-request-had-effects" ELSE "ok",
